@@ -53,7 +53,10 @@ def mk_cases_default(k, mode="interp", extra_args=(), port_faults=True, binary_o
             if port_faults and i % 3 == 2:
                 faults |= psim.PORT_FAULTS  # separate configuration: interleaving + named portability faults
             tick = r.choice(tick_choices) if tick_choices else None
-            cases.append(Case(w, mode, n, seed, faults, extra_args, binary=binary_of(w) if binary_of else None, tick_ns=tick))
+            # plain-access sampling period (K=1 multiplies the number of schedule steps by ~10)
+            plain = r.choice([0, 0, 0, 64, 64, 8, 1])
+            cases.append(Case(w, mode, n, seed, faults, extra_args, binary=binary_of(w) if binary_of else None, tick_ns=tick,
+                              env={"VERIF_SIM_PLAIN": str(plain)}))
         return cases
     return mk
 
@@ -179,6 +182,9 @@ def oracle_c22(w, ref, res, case):
     f = diff_outputs(ref["outputs"], res["outputs"], skip=skip)
     seen = {}
     for a in ai:
+        # only relations whose counter rule is still part of the (possibly minimised) program are judged
+        if not any(l.strip().startswith(a["rel"] + "(") and "autoinc()" in l.split(":-")[0] for l in w.text.split("\n")):
+            continue
         rows = res["outputs"].get(a["rel"])
         sib = res["outputs"].get(a["sibling"])
         if rows is None or sib is None:
